@@ -216,6 +216,46 @@ Theorem C18_rf4ce_reserved_bit_unauthenticated :
       rf_accepts E key (with_fctl x (N.lxor (r_fctl x) 32)) = rf_accepts E key x.
 Proof. exact rf_reserved_unauthenticated. Qed.
 
+(** "Cannot be (de)crypted because something is missing" always ends in the dedicated signal of the
+    RF4CE manager: MissingRF4CESecurityFlag (flag clear, checked before anything else),
+    MissingRF4CEHeader (no RF4CE layer), (packet, False) for a missing address — and no other
+    exception can leave encrypt() / decrypt(). *)
+Theorem C18_rf4ce_flag_clear_is_MissingRF4CESecurityFlag :
+  forall (E : bytes -> bytes -> bytes) key x,
+    rf_sec (r_fctl x) = false -> rf_decrypt E std_variant key x = RRaise MissingSecurityFlag.
+Proof. exact rf_flag_clear_dedicated. Qed.
+
+Theorem C18_rf4ce_missing_address_is_reported :
+  forall (E : bytes -> bytes -> bytes) key x,
+    r_src x = None \/ r_dst x = None ->
+    (exists b, rf_encrypt E std_variant key x = RTuple b false) /\
+    (rf_sec (r_fctl x) = true -> exists b, rf_decrypt E std_variant key x = RTuple b false).
+Proof. exact rf_missing_address_dedicated. Qed.
+
+Theorem C18_rf4ce_no_header_is_MissingRF4CEHeader :
+  forall (E : bytes -> bytes -> bytes) v key,
+    rf_encrypt_top E v key None = RRaise MissingHeader /\ rf_decrypt_top E v key None = RRaise MissingHeader.
+Proof. exact rf_no_header_dedicated. Qed.
+
+Theorem C18_rf4ce_only_dedicated_errors :
+  forall (E : bytes -> bytes -> bytes) key o e,
+    (rf_encrypt_top E std_variant key o = RRaise e -> e = MissingHeader) /\
+    (rf_decrypt_top E std_variant key o = RRaise e -> e = MissingHeader \/ e = MissingSecurityFlag).
+Proof. exact rf_only_dedicated_errors. Qed.
+
+Theorem C18_legacy_rf4ce_flag_clear_struct_error :
+  forall (E : bytes -> bytes -> bytes) key x src dst,
+    r_src x = Some src -> r_dst x = Some dst -> r_has_layer x = true -> rf_sec (r_fctl x) = false ->
+    rf_decrypt E legacy_variant key x = RRaise StructError.
+Proof. exact rf_legacy_flag_clear_struct_error. Qed.
+
+Theorem C18_legacy_rf4ce_bare_frame_no_address_attribute_error :
+  forall (E : bytes -> bytes -> bytes) key x,
+    r_src x = None -> r_has_mac x = false ->
+    rf_encrypt E legacy_variant key x = RRaise AttributeError /\
+    rf_decrypt E legacy_variant key x = RRaise AttributeError.
+Proof. exact rf_legacy_bare_noaddr_attribute_error. Qed.
+
 (** The defects of the code before the fix: commits. *)
 Theorem C18_legacy_rf4ce_no_payload_raises :
   forall (E : bytes -> bytes -> bytes) (key : bytes) (x : rf_in) (src dst : bytes),
@@ -255,6 +295,21 @@ Theorem C18_unifying_wire :
     exists q1, un_dissect (un_build false q) = Some q1 /\ un_wf q1 /\ un_fields q1 = un_fields q /\
                un_build false q1 = un_build false q.
 Proof. exact un_wire. Qed.
+
+(** A frame without encrypted keystroke payload is reported with the dedicated
+    MissingEncryptedKeystrokePayload (every variant, key, frame); nothing else is raised on frames
+    whose fields have their fixed lengths. *)
+Theorem C18_unifying_missing_payload_is_dedicated_error :
+  forall (E : bytes -> bytes -> bytes) v key p,
+    u_ft p <> 0xD3%N -> un_crypt E v key p = Raise MissingPayload.
+Proof. exact un_missing_payload_dedicated. Qed.
+
+Theorem C18_unifying_only_dedicated_errors :
+  forall (E : bytes -> bytes -> bytes),
+    (forall k b, length (E k b) = 16) ->
+    forall key p e, length (u_hid p) = 7 -> length (u_ctr p) = 4 -> length (u_unused p) = 7 ->
+      un_crypt E std_variant key p = Raise e -> e = MissingPayload.
+Proof. exact un_only_dedicated_errors. Qed.
 
 (** The defect of the code before "fix: Logitech_Unifying_Hdr.post_build replaces the checksum
     trailer": the round trip returned the frame followed by two stale checksum bytes. *)
